@@ -79,13 +79,15 @@ prop('C05',
      twin=['tz'],
      uncovered=['POSIX TZ rule lookups: only safety, result shape and earliest-first ordering are proved; that the DST interval tests pick the prescribed type for every instant is covered by the tz twin only',
                 'Local / Cache::offset glue (reads environment and file system)', 'zones with leap-second records', 'zoneinfo database enumeration (configurations)',
-                'instant -> type lookup and exact gap/fold classification beyond the stated table bound (only bounded stand-ins)'],
-     text='Verus proves, for transition tables of ANY length (hypothesis: strictly increasing transition times as established by validate(); separation hypothesis: a repeated '
-          'hour ends before the next transition), that every candidate returned by the real find_local_time_type_from_local is sound (wall -> instant -> wall is the identity), '
-          'that Ambiguous lists the earlier instant first with two distinct offsets, and that no transition time of the file can overflow the arithmetic. '
-          'Bounded Kani stand-ins (<= 2 transitions): offset for an instant = type of the last transition at or before it; exact None/Single/Ambiguous classification; validate() <=> well-formed. '
+                'TimeZoneRef::validate is only bounded (<= 2 transitions)'],
+     text='Verus proves, for transition tables of ANY length (well-formedness as established by validate(); hypothesis tz_ordered on the zone data: the wall-clock windows disturbed by '
+          'consecutive transitions are disjoint and ordered), on the real text: find_local_time_type returns the type of the last transition at or before the instant (first type before the first, '
+          'last type after the last; std binary search through its documented contract); find_local_time_type_from_local returns only sound candidates (wall -> instant -> wall is the identity), '
+          'Ambiguous lists the earlier instant first with distinct offsets, and the classification is EXACT: None only when no interval produces the wall-clock time, Single when exactly one does, '
+          'Ambiguous when exactly two do (the documented boundary second excepted); no file-supplied transition time can overflow the arithmetic. '
           'POSIX-rule code (Verus unit tzrule): is_leap_year, days_since_unix_epoch = day number - 719163 for every i32 year, RuleDay::transition_date for Jn / n / Mm.w.d (incl. last week) against the calendar, '
-          'unix_time, constructors, AlternateTime::new; from_timespec and both rule lookups never overflow, and the wall-clock lookup returns Ambiguous earliest first.')
+          'unix_time, constructors, AlternateTime::new; from_timespec and both rule lookups never overflow, and the wall-clock lookup returns Ambiguous earliest first. '
+          'Bounded stand-ins: Kani <= 2 transitions (same statements + validate); tz twin (15 POSIX rules, 10 synthetic TZif files through the public Local route).')
 
 prop('C06',
      title='Durations are exact signed nanosecond counts within a closed range',
